@@ -279,8 +279,9 @@ func DecodeAndCreateInfoElementWithValue(element *InfoElement, value []byte) (In
 		var val int64
 		if value == nil {
 			val = 0
+		} else {
+			val = int64(binary.BigEndian.Uint64(value))
 		}
-		val = int64(binary.BigEndian.Uint64(value))
 		return NewSigned64InfoElement(element, val), nil
 	case Float32:
 		var val float32
